@@ -180,11 +180,17 @@ def r4(ctx):
     if not ok:
         ctx.violation("stdout/exec_search", ctx.where("exec_search"), "exec_search must not treat a closed output pipe as a failure (and must not unwrap the search result)")
     # check_file: closed pipe -> Ok(false); the walker stops on false at both call sites
-    ch = ctx.anchor_hir(CHECK_FILE)
-    ok = any(x["k"] == "Ret" and render(x["e"]) == "Result::Ok(false)" and any(t[0] == "if" and "BrokenPipe" in render(t[1]) for t in guards_of(ch, x)) for x in walk_exprs(ch))
+    import cfile
+    import interp
+    try:
+        got, ev, _sv = cfile.Run(ctx).run(buffered=False, found=2, stdout="pipe")
+        ok = isinstance(got, interp.V) and got.name == "Result::Ok" and got.args[0] is False
+        why = "returns %s" % (got,)
+    except interp.Undecided as e:
+        ok, why = False, "cannot evaluate check_file: %s" % e
     ctx.obligation(ok)
     if not ok:
-        ctx.violation("stdout/check_file", ctx.where(CHECK_FILE), "check_file must return Ok(false) when standard output is closed")
+        ctx.violation("stdout/check_file", ctx.where(CHECK_FILE), "check_file must return Ok(false) when standard output is closed (%s)" % why)
     vh = ctx.anchor_hir(VISIT_DIR)
     vlocs = Locals(vh)
 
@@ -224,6 +230,7 @@ RULES = [
     ("C04-R4", "per-entry memo: an unreadable entry keeps nothing of the previous entry [shared with C04]", lambda ctx: __import__("c04").r4(ctx)),
     ("C04-R8", "the byte count of Read::read bounds the data examined [shared with C04]", lambda ctx: __import__("extra2").read_amount_used(ctx)),
     ("C07-R6", "an aggregate ranges over the readable data: empty cells of unreadable entries take no part in MIN / MAX [shared with C07]", lambda ctx: __import__("c07").r6(ctx)),
+    ("X-PIPELINE", "the per-entry pipeline of check_file evaluated on its scenario table (filter, count, row, buffer key, separator, closed output) [shared]", lambda ctx: __import__("cfile").pipeline(ctx)),
 ]
 
 EXPLANATION = (
